@@ -12,8 +12,129 @@ EPOCH = datetime.datetime(1970, 1, 1, tzinfo=UTC)
 D = decimal.Decimal
 
 
+# ------------------------------------------------------------------ well-behaved subclasses of the value types
+# An application may pass a str-mixin Enum member, an IntEnum, a Decimal / datetime subclass ... : they ARE
+# str / int / ... values (isinstance), their content is the base value, and only their display dunders differ.
+
+import enum  # noqa: E402
+
+
+class _Display:
+    def __str__(self):
+        return '<display text of a %s>' % type(self).__name__
+
+    def __repr__(self):
+        return '<repr of a %s>' % type(self).__name__
+
+    def __format__(self, spec):
+        return '<formatted %s>' % type(self).__name__
+
+
+class VStr(_Display, str):
+    pass
+
+
+class VInt(_Display, int):
+    pass
+
+
+class VFloat(_Display, float):
+    pass
+
+
+class VBytes(_Display, bytes):
+    pass
+
+
+class VByteArray(_Display, bytearray):
+    pass
+
+
+class VDecimal(_Display, decimal.Decimal):
+    pass
+
+
+class VDateTime(_Display, datetime.datetime):
+    pass
+
+
+class VList(_Display, list):
+    pass
+
+
+class VDict(_Display, dict):
+    pass
+
+
+class VStrEnum(str, enum.Enum):
+    INVOICE = 'invoice'
+    EMPTY = ''
+    ACCENT = 'caf\u00e9'
+    LONG = 'x' * 300
+
+
+class VIntEnum(enum.IntEnum):
+    ONE = 1
+    B200 = 200
+    U40000 = 40000
+    I3E9 = 3000000000
+    N129 = -129
+    N40000 = -40000
+    BIG = 2 ** 40
+    HUGE = 2 ** 70
+
+
+class VIntFlag(enum.IntFlag):
+    X = 1
+    Y = 256
+    Z = 65536
+
+
+V_CLASSES = (VStr, VInt, VFloat, VBytes, VByteArray, VDecimal, VDateTime, VList, VDict, VStrEnum, VIntEnum, VIntFlag)
+
+
+def debase(v):
+    """the plain built-in value a (possibly subclassed, possibly nested) value IS"""
+    if isinstance(v, bool) or v is None:
+        return v
+    t = type(v)
+    if t in (int, float, str, bytes, decimal.Decimal, datetime.datetime, time.struct_time):
+        return v
+    if isinstance(v, int):
+        return int.__add__(v, 0)
+    if isinstance(v, float):
+        return float.__float__(v)
+    if isinstance(v, str):
+        return ''.join(str.__iter__(v))
+    if isinstance(v, bytes):
+        return bytes.__getitem__(v, slice(None))
+    if isinstance(v, bytearray):
+        return bytearray(bytearray.__getitem__(v, slice(None))) if t is not bytearray else v
+    if isinstance(v, decimal.Decimal):
+        return decimal.Decimal(v)
+    if isinstance(v, datetime.datetime):
+        return datetime.datetime.combine(datetime.datetime.date(v), datetime.datetime.timetz(v))
+    if isinstance(v, list):
+        return [debase(x) for x in list.__iter__(v)] if (t is not list or any(type(x) not in (int, str, float, bool, type(None)) for x in v)) else v
+    if isinstance(v, dict):
+        return {debase(k): debase(x) for k, x in dict.items(v)}
+    return v
+
+
 def pyrepr(v):
     """an eval-able repr (see REPLAY_ENV) of the values the generators produce"""
+    if isinstance(v, enum.Enum) and type(v) in V_CLASSES:
+        return '%s.%s' % (type(v).__name__, v.name)
+    if type(v) in V_CLASSES:
+        if isinstance(v, datetime.datetime):
+            d = debase(v)
+            return 'VDateTime(%d, %d, %d, %d, %d, %d, %d, tzinfo=%s, fold=%d)' % (d.year, d.month, d.day, d.hour, d.minute, d.second, d.microsecond,
+                                                                               pyrepr(d.tzinfo), d.fold)
+        if isinstance(v, list):
+            return 'VList(%s)' % pyrepr(list(list.__iter__(v)))
+        if isinstance(v, dict):
+            return 'VDict(%s)' % pyrepr(dict(dict.items(v)))
+        return '%s(%s)' % (type(v).__name__, pyrepr(debase(v)))
     if isinstance(v, float):
         if v != v:
             return "float.fromhex('nan')" if struct.pack('>d', v)[0] < 0x80 else "-float.fromhex('nan')"
@@ -35,6 +156,7 @@ def pyrepr(v):
 
 REPLAY_ENV = {'datetime': datetime, 'time': time, 'Decimal': D, 'decimal': decimal, 'bytearray': bytearray,
               'float': float, 'bytes': bytes, 'memoryview': memoryview, 'object': object, 'frozenset': frozenset, 'set': set, 'range': range}
+REPLAY_ENV.update({c.__name__: c for c in V_CLASSES})
 
 
 def pyeval(s):
@@ -81,6 +203,7 @@ class Result:
 
 def norm(v):
     """documented normalisation of a field value, written independently of pamqp"""
+    v = debase(v)
     if isinstance(v, bool) or v is None or isinstance(v, (int, str)):
         return v
     if isinstance(v, float):
